@@ -264,7 +264,8 @@ def run(tier):
     per_fn = {}
     for build, binary in builds.items():
         for tag, cmd, expect in plans:
-            recs, status, partial = run_probe(binary, cmd, timeout=1500)
+            # (a complete plan takes seconds; a hang of the code under test is a TimedOut event)
+            recs, status, partial = run_probe(binary, cmd, timeout=90 if quick else 600)
             meta = [r for r in recs if r.get("f") == "meta"]
             calls = [r for r in recs if r.get("f") not in ("meta", "end")]
             if meta and (meta[0]["word"] != 8 or meta[0]["small_mod64"] != 0):
